@@ -22,6 +22,7 @@ def sym_vertex(tag):
     return Struct("Vertex", {"loc": vec(tag + "_loc"), "dual": Arr([Var("%s_dual%d" % (tag, a), "Int", "usize") for a in range(3)]), "radius2": real(tag + "_r2")})
 
 
+@isolated('decomposition')
 def decomposition_obligations(prefix):
     obs, fns = [], []
     cell, planes = F.sym_cell("dc")
@@ -128,6 +129,7 @@ def decomposition_obligations(prefix):
     return obs, fns
 
 
+@isolated('lemma')
 def lemma_obligations(prefix):
     """Code-independent algebra behind the exactness argument: the two pieces on either side of an edge foot b merge
     (b on the line through v and w): vol(a, v, b, g) + vol(a, b, w, g) = vol(a, v, w, g), with the REAL signed_volume_tet / signed_area_tri."""
